@@ -704,6 +704,11 @@ func (ex *Exec) builtin(name string, args []Value, c *ssa.CallCommon) Value {
 		}
 		ch.Closed = true
 		return nil
+	case "ssa:wrapnilchk":
+		if p, ok := args[0].(Pointer); ok && p.C == nil {
+			ex.goPanic("value method %v.%v called using nil pointer", describe(args[1]), describe(args[2]))
+		}
+		return args[0]
 	case "print", "println":
 		return nil
 	case "min", "max":
